@@ -347,7 +347,8 @@ def build_circuit(spec, name="net", style=None, pool=None):
                                    operators={ops[o]: dict(ov.get(o, {})) for o in et["ops"]})
 
     def edge_tuple(e):
-        d = {"weight": float(e["w"])}
+        # (spec["np_weights"]: weights handed over as numpy scalars, as add_edges_from_matrix and array-valued updates do)
+        d = {"weight": np.float64(e["w"]) if spec.get("np_weights") else float(e["w"])}
         if e.get("d") is not None:
             d["delay"] = float(e["d"])
         if e.get("sp") is not None:
